@@ -31,7 +31,7 @@ TNext ==
         \/ Ev.e = "WriteCall" /\ WriteCall(Ev.k, Ev.n)
         \/ Ev.e = "WriteRet" /\ WriteRet /\ cret' = Ev.r
         \/ Ev.e = "Exit"     /\ Exit(Ev.fail)
-        \/ Ev.e = "Cb"       /\ CbStep /\ cblog'[Len(cblog')] = <<Ev.n, Ev.k>>
+        \/ Ev.e = "Cb"       /\ CbStep /\ cblog'[Len(cblog')] = <<Ev.n, Ev.k, Ev.s, Ev.i>>
         \/ Ev.e = "CloseCall" /\ CloseCall
         \/ Ev.e = "CloseRet" /\ CloseRet
         \/ Ev.e = "WaitCall" /\ WaitCall
